@@ -4,21 +4,23 @@
  *   the script-padding strip at the top of makeAndInitialize (src/gr_segment.cpp).
  * All units are loop-free over the full input domain: complete proofs.
  */
+/* The four functions under contract are loop-free; their units carry 'unwind':8 (with unwinding assertions) only so that a change which
+ * introduces a short loop is decided (unwound completely, then judged by the contract) instead of running into the time limit. */
 #include "types.h"
 
-/*@unit {'name':'c20_str_to_tag', 'props':['C20'], 'entry':'h_str_to_tag', 'enforce':'gr_str_to_tag', 'replace':['strlen'],
+/*@unit {'name':'c20_str_to_tag', 'unwind':8, 'props':['C20'], 'entry':'h_str_to_tag', 'enforce':'gr_str_to_tag', 'replace':['strlen'],
          'assumptions':['strlen(s) is replaced by the assumed contract "returns the length of the NUL-terminated string s and reads only up to its NUL" (libc, trusted)'],
          'replay':'c20_tags', 'witness_defines':[], 'witness_vars':['w_n','w_b'],
          'claims':'gr_str_to_tag reads no byte beyond the terminating NUL (exact-size buffer) and returns the big-endian tag of the first min(4,len) characters, zero padded; assigns nothing'}@*/
-/*@unit {'name':'c20_tag_to_str', 'props':['C20'], 'entry':'h_tag_to_str', 'enforce':'gr_tag_to_str',
+/*@unit {'name':'c20_tag_to_str', 'unwind':8, 'props':['C20'], 'entry':'h_tag_to_str', 'enforce':'gr_tag_to_str',
          'replay':'c20_tags', 'witness_defines':[], 'witness_vars':['w_tag','w_null'],
          'claims':'gr_tag_to_str writes exactly the four tag bytes into a 4-byte buffer and nothing after them; NULL is ignored'}@*/
 /*@unit {'name':'c20_roundtrip', 'props':['C20'], 'entry':'h_roundtrip', 'replace':['gr_str_to_tag','gr_tag_to_str'],
          'claims':'lemma over the two contracts: str->tag->str and tag->str->tag are identities on four-character tags'}@*/
-/*@unit {'name':'c20_zeropad', 'props':['C20','C18'], 'entry':'h_zeropad', 'enforce':'zeropad',
+/*@unit {'name':'c20_zeropad', 'unwind':8, 'props':['C20','C18'], 'entry':'h_zeropad', 'enforce':'zeropad',
          'replay':'c20_tags', 'witness_defines':[], 'witness_vars':['w_x'],
          'claims':'zeropad maps a space-padded tag to the zero-padded tag of the same characters and is the identity on every other value'}@*/
-/*@unit {'name':'c20_script_strip', 'props':['C20'], 'entry':'h_script_strip', 'enforce':'script_strip',
+/*@unit {'name':'c20_script_strip', 'unwind':8, 'props':['C20'], 'entry':'h_script_strip', 'enforce':'script_strip',
          'claims':'the script-tag normalisation in makeAndInitialize computes the same function as zeropad (space- and zero-padded script tags select the same script)'}@*/
 /*@unit {'name':'c20_pad_lemma', 'props':['C20','C18'], 'entry':'h_pad_lemma', 'replace':['zeropad','gr_str_to_tag'],
          'claims':'lemma over contracts: for every string of k<=4 non-space non-NUL characters, zeropad(tag of space-padded string) == tag of the unpadded string'}@*/
